@@ -595,6 +595,8 @@ def getEncodingInfo(response=None, text='', log=None, url=None):  # noqa: C901
     # HTTP
     if response:
         encinfo.http_media_type, encinfo.http_encoding = getHTTPInfo(response, log)
+
+    if encinfo.http_media_type:
         texttype = _getTextTypeByMediaType(encinfo.http_media_type, log)
     else:
         # check if maybe XML or (TODO:) HTML
